@@ -45,7 +45,7 @@ type Opts struct {
 func All() Opts {
 	return Opts{MaxServices: 6, MaxParams: 5, Scopes: true, Tags: true, Decorators: true, Calls: true, Fields: true,
 		Getters: true, NonFinite: true, Todo: true, FailCtor: true, Funcs: true, Aliases: true, HostileAlias: true,
-		MetaNames: true, ValueKinds: true, CurrentPkg: true, Unicode: true}
+		MetaNames: true, ValueKinds: true, CurrentPkg: true, Unicode: true, TemplateAlias: true}
 }
 
 // Labels collects feature labels of a generated configuration.
